@@ -1297,7 +1297,9 @@ pub fn case_meta(ctx: &mut Ctx, case: &Value) {
                 let mut c1 = cfg.clone();
                 c1.threads = 1;
                 let margin = model_margin(ctx, &t, &c1).min(model_margin(ctx, &t2, &c1));
-                if margin < ILL {
+                // a stored witness may declare its exact zeros structural (independent of summation order)
+                let force = case["structural_zeros"].as_bool().unwrap_or(false);
+                if margin < ILL && !force {
                     ctx.skipped_illcond += 1;
                     ctx.stat("ill_conditioned_skipped");
                 } else {
